@@ -431,6 +431,8 @@ func retainedNode(w *hdr.World, tip, n *ref.Node) bool {
 	return f.Height >= tip.Height-w.MinDepth
 }
 
+func errorsCause(err error) error { return errors.Cause(err) }
+
 func memClass(retained, inBest bool) string {
 	return fmt.Sprintf("retained-%t|best-%t", retained, inBest)
 }
@@ -682,3 +684,43 @@ var oracleC12 = oracle{
 		}
 	},
 }
+
+// ---------------------------------------------------------------------------------------------
+// C17: a header marked invalid, and everything built on it, is excluded until unmarked.
+
+var oracleC17 = oracle{post: func(c *checker) {
+	if !c.basics() {
+		return
+	}
+	w := c.w
+	if c.st != nil && (c.st.Op.K == "mark" || c.st.Op.K == "markx" || c.st.Op.K == "unmark") && c.st.Err != "" {
+		c.fail("mark-error", c.st.Op.K+"|"+normalize(c.st.Err), c.st.Op.String()+" returned "+c.st.Err)
+		return
+	}
+	t := c.tipNode(true) // model tree no longer holds marked headers and their descendants
+	if t == nil {
+		return
+	}
+	c.chainByHeight(t)
+	if len(c.vs) > 0 {
+		return
+	}
+	_, p := hdr.Safe(func() error {
+		for _, l := range w.Removed {
+			u := hdr.Get(l)
+			if w.Tree.Get(hdr.RH(u.Hash)) != nil {
+				continue // accepted again after unmarking
+			}
+			c.n++
+			_, flag, err := w.Repo.CheckHeader(w.Ctx, u.Hash)
+			if err == nil && flag {
+				c.fail("excluded-header-in-best-chain", opClass(c.st), "CheckHeader reports "+l+" (marked invalid or built on a marked header) as in the most-work chain")
+				return nil
+			}
+		}
+		return nil
+	})
+	if p != "" {
+		c.fail("lookup-panic", opClass(c.st)+"|"+normalize(p), p)
+	}
+}}
